@@ -18,14 +18,14 @@
 #include <sys/resource.h>   /* setrlimit: command aslimit (round 3) */
 
 /* ---------------------------------------------------------------- recording wrappers */
-typedef struct { int kind; unsigned long long a, b, c, d; unsigned long long e; } rec_t;
+typedef struct { int kind; unsigned long long a, b, c, d; unsigned long long e; unsigned long long f; } rec_t;
 #define MAXREC (1 << 16)
 static rec_t g_rec[MAXREC];
 static int g_nrec = 0;
 static int g_rec_overflow = 0;
 static void rec(int kind, unsigned long long a, unsigned long long b, unsigned long long c, unsigned long long d, unsigned long long e)
 {
-    if (g_nrec < MAXREC) { rec_t r = { kind, a, b, c, d, e }; g_rec[g_nrec++] = r; } else g_rec_overflow = 1;
+    if (g_nrec < MAXREC) { rec_t r = { kind, a, b, c, d, e, 0 }; g_rec[g_nrec++] = r; } else g_rec_overflow = 1;
 }
 
 static size_t zv_compressStream(ZSTD_CStream* zcs, ZSTD_outBuffer* out, ZSTD_inBuffer* in)
@@ -50,6 +50,7 @@ static size_t zv_decompressStream(ZSTD_DStream* zds, ZSTD_outBuffer* out, ZSTD_i
     /* kind 'k' = skip buffer, 'd' = caller's buffer; size, pos before, progress, consumed, ret */
     rec(out->dst == g_skipbuf ? 'k' : 'd', out->size, op, out->pos - op, in->pos - ip,
         ZSTD_isError(r) ? 2 : (r == 0 ? 1 : 0));
+    if (g_nrec > 0 && !g_rec_overflow) g_rec[g_nrec - 1].f = ZSTD_isError(r) ? 0 : r;   /* round 3: the size hint (7th field) */
     return r;
 }
 static unsigned* g_curFramePtr = NULL;
@@ -118,7 +119,7 @@ static void print_recs(void)
         case 'c': printf("c:%llu:%llu:%llu:%llu", r->a, r->b, r->c, r->d); break;   /* offered:consumed:produced:ret(raw size_t) */
         case 'e': printf("e:%llu:%llu", r->c, r->d); break;                         /* produced:ret(raw size_t) */
         case 'R': printf("R:%llu", r->a); break;
-        default:  printf("%c:%llu:%llu:%llu:%llu:%llu", r->kind, r->a, r->b, r->c, r->d, r->e); break;       /* size:pos:progress:consumed:fin */
+        default:  printf("%c:%llu:%llu:%llu:%llu:%llu:%llu", r->kind, r->a, r->b, r->c, r->d, r->e, r->f); break;       /* size:pos:progress:consumed:fin:hint */
         }
     }
     if (g_rec_overflow) printf(";OVERFLOW");
@@ -130,19 +131,30 @@ typedef struct { const unsigned char* p; size_t size; size_t head; unsigned long
                  unsigned long long fail_seek, fail_read;   /* fault injection: the k-th next call fails once (0 = never) */
                  unsigned long long fail_readpart;          /* round 3: the k-th next read fails once AFTER delivering part of the bytes (read head moved) */ } cbsrc_t;
 static int g_cb_ok = 0;   /* value the callbacks return on success: the header allows any non-negative value */
+/* round 3: log of the callback source's I/O since the last 'r' / 'rf' command: S:<offset>:<ok> (SEEK_SET only) and I:<head>:<n>:<ok>:<moved> */
+typedef struct { int kind; unsigned long long a, b, moved; int ok; } io_t;
+#define MAXIO 4096
+static io_t g_io[MAXIO];
+static int g_nio = 0, g_io_overflow = 0;
+static void iolog(int kind, unsigned long long a, unsigned long long b, int ok)
+{
+    if (g_nio < MAXIO) { io_t e = { kind, a, b, 0, ok }; g_io[g_nio++] = e; } else g_io_overflow = 1;
+}
 static int cb_read(void* opaque, void* buffer, size_t n)
 {
     cbsrc_t* s = (cbsrc_t*)opaque; size_t i;
     s->nread++;
-    if (s->fail_read && --s->fail_read == 0) return -1;   /* injected transient I/O error */
+    iolog('I', s->head, n, 1);
+    if (s->fail_read && --s->fail_read == 0) { g_io[g_nio > 0 ? g_nio - 1 : 0].ok = 0; return -1; }   /* injected transient I/O error */
     if (s->fail_readpart && --s->fail_readpart == 0) {    /* injected transient I/O error after a partial transfer: like fread(), whose
                                                            * file position is indeterminate after an error (C11 7.21.8.1) */
         size_t h = (n + 1) / 2; if (h > s->size - s->head) h = s->size - s->head;
         for (i = 0; i < h; i++) ((unsigned char*)buffer)[i] = s->p[s->head + i];
         s->head += h;
+        g_io[g_nio > 0 ? g_nio - 1 : 0].ok = 0; g_io[g_nio > 0 ? g_nio - 1 : 0].moved = h;
         return -1;
     }
-    if (n > s->size - s->head) return -1;              /* premature EOF is an error */
+    if (n > s->size - s->head) { g_io[g_nio > 0 ? g_nio - 1 : 0].ok = 0; return -1; }   /* premature EOF is an error */
     for (i = 0; i < n; i++) ((unsigned char*)buffer)[i] = s->p[s->head + i];
     s->head += n;
     return g_cb_ok;
@@ -151,10 +163,11 @@ static int cb_seek(void* opaque, long long offset, int origin)
 {
     cbsrc_t* s = (cbsrc_t*)opaque; long long base, np;
     s->nseek++;
-    if (s->fail_seek && --s->fail_seek == 0) return -1;   /* injected transient I/O error */
+    if (origin == SEEK_SET) iolog('S', (unsigned long long)offset, 0, 1);
+    if (s->fail_seek && --s->fail_seek == 0) { if (origin == SEEK_SET && g_nio > 0) g_io[g_nio - 1].ok = 0; return -1; }   /* injected transient I/O error */
     base = origin == SEEK_SET ? 0 : origin == SEEK_END ? (long long)s->size : (long long)s->head;
     np = base + offset;
-    if (np < 0 || (unsigned long long)np > s->size) return -1;
+    if (np < 0 || (unsigned long long)np > s->size) { if (origin == SEEK_SET && g_nio > 0) g_io[g_nio - 1].ok = 0; return -1; }
     s->head = (size_t)np;
     return g_cb_ok;
 }
@@ -452,7 +465,7 @@ int main(int argc, char** argv)
             cap = (size_t)b;
             dst = (unsigned char*)malloc(cap ? cap : 1);
             memset(dst, 0xA5, cap ? cap : 1);
-            g_nrec = 0;
+            g_nrec = 0; g_nio = 0; g_io_overflow = 0;
             if (cmd[1] == 0) r = ZSTD_seekable_decompress(zs, dst, cap, a);
             else r = ZSTD_seekable_decompressFrame(zs, dst, cap, (unsigned)a);
             printf("%s %llu %llu", cmd, a, b); print_ret("ret", r);
@@ -464,6 +477,14 @@ int main(int argc, char** argv)
                 { size_t i, untouched = 1; for (i = r; i < cap; i++) if (dst[i] != 0xA5) untouched = 0; printf(" tail=%d", (int)untouched); }
             }
             print_recs();
+            {   int i; printf(" io=");       /* callback access only: the source's I/O during this call */
+                if (g_nio == 0) printf("-");
+                for (i = 0; i < g_nio; i++) {
+                    if (i) printf(";");
+                    if (g_io[i].kind == 'S') printf("S:%llu:%d", g_io[i].a, g_io[i].ok); else printf("I:%llu:%llu:%d:%llu", g_io[i].a, g_io[i].b, g_io[i].ok, g_io[i].moved);
+                }
+                if (g_io_overflow) printf(";OVERFLOW");
+            }
             printf("\n");
             free(dst);
         } else if (!strcmp(cmd, "regular")) {       /* plain libzstd multi-frame streaming decode of the whole archive */
